@@ -41,6 +41,13 @@ class TimeProxy:
         # nothing in the explored code should sleep; make it visible
         self._clock.now += s
 
+    def gmtime(self, secs=None):
+        return _real_time.gmtime(self._clock.now if secs is None else secs)
+
+    def localtime(self, secs=None):
+        return _real_time.localtime(self._clock.now if secs is None
+                                    else secs)
+
     def __getattr__(self, name):
         return getattr(_real_time, name)
 
